@@ -9,7 +9,15 @@
 (* byte counts are arithmetic, so a 65536-byte message at chunk size 1 is one *)
 (* record (the per-chunk refinement is module RtmpChunk with Atomic = TRUE).  *)
 (* Before any message the simple handshake moves 1 + 1536 + 1536 bytes in     *)
-(* each direction in the order of the library's example code.                 *)
+(* each direction.  Handshake and session share ONE byte stream per direction *)
+(* (as on a TCP connection): put[e] counts the bytes e has written into its   *)
+(* direction, took[e] the bytes e has taken out of the peer's direction.  The *)
+(* six handshake calls of an endpoint (three writes, three reads) are single  *)
+(* actions; with HsOrder = "free" they interleave with the peer's calls and   *)
+(* with the peer's first session messages in every order the standard allows  *)
+(* (RTMP 1.0, 5.2.1), so that an endpoint reads C0/C1/C2 (S0/S1/S2) while the *)
+(* bytes that follow them are already in the transport.  Every handshake read *)
+(* takes exactly its 1 / 1536 bytes (HsExact).                                *)
 EXTENDS Integers, Sequences, SequencesExt
 
 CONSTANTS
@@ -19,31 +27,74 @@ CONSTANTS
   AbsLens,       \* absolute payload lengths always offered
   RelLens,       \* TRUE: also cs-1, cs, cs+1, 2cs+1 for the writer's current chunk size cs
   MaxWrites,     \* total number of messages written
-  WriterFollowsOwnSCS   \* TRUE: the property's writer; FALSE: named deviation (writer keeps its old size)
+  WriterFollowsOwnSCS,  \* TRUE: the property's writer; FALSE: named deviation (writer keeps its old size)
+  HsOrder,       \* "serial": the twelve handshake calls in the order of the library's example code, session afterwards;
+                 \* "free": every interleaving of the two endpoints' calls and session writes the standard allows
+  HsReadExact    \* TRUE: a handshake read takes exactly its 1/1536 bytes; FALSE: named deviation "handshake-overread"
+                 \* (it reads through a buffer of its own and takes whatever the transport holds)
 
 E == {"A", "B"}
 Peer(e) == IF e = "A" THEN "B" ELSE "A"
 M31 == 2147483647
 Min2(a, b) == IF a < b THEN a ELSE b
 
-VARIABLES hs, out, inn, wire, sent, got, desync, hist
-vars == <<hs, out, inn, wire, sent, got, desync, hist>>
+VARIABLES hsw, hsr, put, took, rdoff, out, inn, wire, sent, got, desync, hist, sched
+vars == <<hsw, hsr, put, took, rdoff, out, inn, wire, sent, got, desync, hist, sched>>
+
+\* --------------------------------------------------------------- bytes on the wire
+HdrBytes(ts, first) == IF first THEN (IF ts >= 16777215 THEN 16 ELSE 12) ELSE (IF ts >= 16777215 THEN 5 ELSE 1)
+NChunks(len, cs) == ((len - 1) \div cs) + 1      \* ceil(len/cs) for len >= 1, overflow-free
+MsgBytes(m, cs) == HdrBytes(m.ts, TRUE) + (NChunks(m.len, cs) - 1) * HdrBytes(m.ts, FALSE) + m.len
 
 \* ------------------------------------------------------------- handshake
-\* step k of the handshake: <<writer, bytes>>; the reads follow the example code
-HsSteps == << <<"A", 1>>, <<"A", 1536>>, <<"B", 1>>, <<"B", 1536>>, <<"B", 1536>>, <<"A", 1536>> >>
-HsBytes(e) == IF hs = 0 THEN 0
-              ELSE LET Sum[k \in 0..hs] == IF k = 0 THEN 0
-                                           ELSE Sum[k - 1] + (IF HsSteps[k][1] = e THEN HsSteps[k][2] ELSE 0)
-                   IN Sum[hs]
+\* "A" is the client (C0 C1 C2), "B" the server (S0 S1 S2).  hsw[e] / hsr[e]: how many of its three handshake
+\* packets e has written / has read; the k-th packet of a direction has HsSize[k] bytes.
+HsSize == <<1, 1536, 1536>>
+HsSum(k) == CASE k = 0 -> 0 [] k = 1 -> 1 [] k = 2 -> 1537 [] k = 3 -> 3073
+HsDone(e) == hsw[e] = 3 /\ hsr[e] = 3
 
-Init == /\ hs = 0
+\* what a handshake write has to wait for: C2 echoes S1 and S2 echoes C1 (the library's WriteC2S2 takes the
+\* bytes ReadC1S1 returned); the server sends S0 only after C0 (RTMP 1.0, 5.2.1)
+MayHsWrite(e) == /\ hsw[e] < 3
+                 /\ hsw[e] = 2 => hsr[e] >= 2
+                 /\ (e = "B" /\ hsw[e] = 0) => hsr[e] >= 1
+
+\* the order of the library's example code (client: write C0 C1, read S0 S1 S2, write C2;
+\* server: read C0 C1, write S0 S1 S2, read C2)
+SerialOrder == << <<"A", "W">>, <<"A", "W">>, <<"B", "R">>, <<"B", "R">>, <<"B", "W">>, <<"B", "W">>, <<"B", "W">>,
+                  <<"A", "R">>, <<"A", "R">>, <<"A", "R">>, <<"A", "W">>, <<"B", "R">> >>
+HsCount == hsw["A"] + hsr["A"] + hsw["B"] + hsr["B"]
+InOrder(e, k) == HsOrder = "free" \/ (HsCount < Len(SerialOrder) /\ SerialOrder[HsCount + 1] = <<e, k>>)
+
+Init == /\ hsw = [e \in E |-> 0] /\ hsr = [e \in E |-> 0]
+        /\ put = [e \in E |-> 0] /\ took = [e \in E |-> 0] /\ rdoff = [e \in E |-> 0]
         /\ out = [e \in E |-> 128] /\ inn = [e \in E |-> 128]
         /\ wire = [e \in E |-> <<>>] /\ sent = [e \in E |-> <<>>] /\ got = [e \in E |-> <<>>]
-        /\ desync = [e \in E |-> FALSE] /\ hist = <<>>
+        /\ desync = [e \in E |-> FALSE] /\ hist = <<>> /\ sched = <<>>
 
-HsStep == /\ hs < Len(HsSteps) /\ hs' = hs + 1
-          /\ UNCHANGED <<out, inn, wire, sent, got, desync, hist>>
+\* one entry of the schedule: k = "W"/"R" a handshake write/read of n bytes, k = "m" the n-th session write (hist[n]);
+\* c: the byte counter of e the step advances (put[e] for a write, took[e] for a read), after the step
+Entry(k, e, n, c) == [k |-> k, e |-> e, n |-> n, c |-> c]
+
+\* WriteC0S0 / WriteC1S1 / WriteC2S2
+HsWrite(e) ==
+  /\ MayHsWrite(e) /\ InOrder(e, "W")
+  /\ LET n == HsSize[hsw[e] + 1] IN
+     /\ hsw' = [hsw EXCEPT ![e] = @ + 1]
+     /\ put' = [put EXCEPT ![e] = @ + n]
+     /\ sched' = Append(sched, Entry("W", e, n, put'[e]))
+  /\ UNCHANGED <<hsr, took, rdoff, out, inn, wire, sent, got, desync, hist>>
+
+\* ReadC0S0 / ReadC1S1 / ReadC2S2: returns once its n bytes are there (whatever else is behind them)
+HsRead(e) ==
+  /\ hsr[e] < 3 /\ InOrder(e, "R")
+  /\ LET n == HsSize[hsr[e] + 1]
+         avail == put[Peer(e)] - took[e] IN
+     /\ avail >= n
+     /\ hsr' = [hsr EXCEPT ![e] = @ + 1]
+     /\ took' = [took EXCEPT ![e] = @ + (IF HsReadExact THEN n ELSE avail)]
+     /\ sched' = Append(sched, Entry("R", e, n, took'[e]))
+  /\ UNCHANGED <<hsw, put, rdoff, out, inn, wire, sent, got, desync, hist>>
 
 \* ------------------------------------------------------------- messages
 LensFor(cs) == AbsLens \cup
@@ -61,40 +112,42 @@ NWrites == Len(sent["A"]) + Len(sent["B"])
 \* the library's writer: the whole message is cut with the current output chunk size;
 \* an outgoing Set Chunk Size switches the writer itself (the peer's reader will switch on reading it)
 Write(e, m) ==
-  /\ hs = Len(HsSteps) /\ e \in Dirs /\ NWrites < MaxWrites
+  /\ HsDone(e) /\ (HsOrder = "serial" => HsDone(Peer(e)))   \* "any other data" only after the own handshake (5.2.1)
+  /\ e \in Dirs /\ NWrites < MaxWrites
   /\ wire' = [wire EXCEPT ![e] = Append(@, [m |-> m, cs |-> out[e]])]
+  /\ put' = [put EXCEPT ![e] = @ + MsgBytes(m, out[e])]
+  /\ sched' = Append(sched, Entry("m", e, Len(hist) + 1, put'[e]))
   /\ sent' = [sent EXCEPT ![e] = Append(@, m)]
   /\ out'  = [out EXCEPT ![e] = IF m.type = 1 /\ WriterFollowsOwnSCS THEN m.scs ELSE @]
   /\ hist' = Append(hist, [e |-> e, m |-> m, cs |-> out[e], out_after |-> out'[e]])
-  /\ UNCHANGED <<hs, inn, got, desync>>
+  /\ UNCHANGED <<hsw, hsr, took, rdoff, inn, got, desync>>
 
 \* the library's reader takes min(input chunk size, remaining) payload bytes per chunk; it sees the
-\* message the writer sent iff both cut it the same way
+\* message the writer sent iff both cut it the same way and it starts at the message's first byte
+\* (every byte before it was taken by the handshake or by the earlier messages, and no other)
+Aligned(e) == took[e] = HsSum(3) + rdoff[e]
 SameCut(len, csW, csR) == (len <= csW /\ len <= csR) \/ csW = csR
 
 Read(e) ==
   LET p == Peer(e) IN
-  /\ wire[p] # <<>> /\ ~desync[e]
+  /\ HsDone(e) /\ wire[p] # <<>> /\ ~desync[e]
   /\ LET r == Head(wire[p]) IN
-     IF SameCut(r.m.len, r.cs, inn[e])
+     IF Aligned(e) /\ SameCut(r.m.len, r.cs, inn[e])
      THEN /\ got' = [got EXCEPT ![e] = Append(@, r.m)]
           /\ inn' = [inn EXCEPT ![e] = IF r.m.type = 1 THEN r.m.scs ELSE @]
+          /\ took' = [took EXCEPT ![e] = @ + MsgBytes(r.m, r.cs)]
+          /\ rdoff' = [rdoff EXCEPT ![e] = @ + MsgBytes(r.m, r.cs)]
           /\ UNCHANGED desync
      ELSE /\ desync' = [desync EXCEPT ![e] = TRUE]
-          /\ UNCHANGED <<got, inn>>
+          /\ UNCHANGED <<got, inn, took, rdoff>>
   /\ wire' = [wire EXCEPT ![p] = Tail(@)]
-  /\ UNCHANGED <<hs, out, sent, hist>>
+  /\ UNCHANGED <<hsw, hsr, put, out, sent, hist, sched>>
 
-Next == \/ HsStep
+Next == \/ \E e \in E : HsWrite(e) \/ HsRead(e)
         \/ \E e \in Dirs, cs \in ChunkSizes : Write(e, ScsMsg(cs, NWrites + 1))
         \/ \E e \in Dirs, sh \in Shapes : \E l \in LensForShape(sh, out[e]) : Write(e, DataMsg(sh, l, NWrites + 1))
         \/ \E e \in E : Read(e)
 Spec == Init /\ [][Next]_vars
-
-\* --------------------------------------------------------------- bytes on the wire (for offsets)
-HdrBytes(ts, first) == IF first THEN (IF ts >= 16777215 THEN 16 ELSE 12) ELSE (IF ts >= 16777215 THEN 5 ELSE 1)
-NChunks(len, cs) == ((len - 1) \div cs) + 1      \* ceil(len/cs) for len >= 1, overflow-free
-MsgBytes(m, cs) == HdrBytes(m.ts, TRUE) + (NChunks(m.len, cs) - 1) * HdrBytes(m.ts, FALSE) + m.len
 
 \* -------------------------------------------------------------- properties
 NoDesync   == \A e \in E : ~desync[e]
@@ -112,6 +165,15 @@ InFollowsOut == \A e \in E :
 Independent == \A e \in E : (sent[e] = <<>> => inn[Peer(e)] = 128 /\ out[e] = 128)
 Quiescent == \A e \in E : wire[e] = <<>>
 AllDelivered == (Quiescent /\ NoDesync) => \A e \in E : got[e] = sent[Peer(e)]
-HandshakeBytes == hs = Len(HsSteps) => HsBytes("A") = 3073 /\ HsBytes("B") = 3073
-Done == NWrites = MaxWrites /\ Quiescent
+\* each handshake step consumes exactly its 1 / 1536 bytes: what an endpoint has taken out of the transport is
+\* its handshake reads plus the session messages it has read - never a byte of what follows
+HsExact == \A e \in E : took[e] = HsSum(hsr[e]) + rdoff[e]
+\* ... and the handshake puts exactly 1 + 1536 + 1536 bytes in front of the session
+HandshakeBytes == \A e \in E : (HsDone(e) /\ sent[e] = <<>>) => put[e] = 3073
+\* nothing is taken that was not written; at quiescence every byte written was taken
+NoByteLost == \A e \in E : /\ took[e] <= put[Peer(e)]
+                            /\ (Quiescent /\ NoDesync /\ HsDone("A") /\ HsDone("B")) => took[e] = put[Peer(e)]
+\* no session byte before the own handshake is complete (RTMP 1.0, 5.2.1)
+SessionAfterHandshake == \A e \in E : sent[e] # <<>> => HsDone(e)
+Done == NWrites = MaxWrites /\ Quiescent /\ HsDone("A") /\ HsDone("B")
 =============================================================================
